@@ -37,6 +37,23 @@ def _idx_atoms(extra=()):
 
 
 # ------------------------------------------------------------------ R-C16-1
+def _attr_texts(attrs) -> dict:
+    """attribute -> text of its stored value with every sub-expression that is itself the value stored into ANOTHER attribute on this path replaced by
+    that attribute (`self.n = n; self.k = ceil(len(data) / n)` reads `ceil(len(self.data) / self.n)`): formulas written over locals and over attributes compare equal"""
+    import re
+    texts = {k: dump(v).replace(" ", "") for k, v in attrs.items()}
+    order = sorted(texts, key=lambda k: -len(texts[k]))
+    out = {}
+    for k, t in texts.items():
+        for a in order:
+            v = texts[a]
+            if a == k or v == a or len(v) < 3 or v in ("None", "True", "False") or v.replace(".", "").replace("-", "").isdigit():
+                continue
+            t = re.sub(r"(?<![\w.])" + re.escape(v) + r"(?![\w(])", a, t)
+        out[k] = t
+    return out
+
+
 def _shuffle_comprehension(init):
     """`self.data_points = [p[perm] for p in self.data_points]` form of the shuffle: (perm shared?, text) or None"""
     from ..util import single_defs
@@ -461,20 +478,22 @@ def r2b_windows_unique(repo: Repo, rep):
             # window counts: attributes defined as ceil(length / batch size)
             counts = {}
             init = ci.methods.get("__init__")
-            for q in (paths(init.node, expand_self=False) if init is not None else []):
-                for name, val in q.attrs.items():
-                    t = dump(val).replace(" ", "")
-                    for fn in ("int(np.ceil(", "int(math.ceil(", "math.ceil(", "np.ceil("):
-                        if t.startswith(fn) and "/" in t:
-                            inner = t[len(fn):].rstrip(")")
-                            L, _, BS = inner.partition("/")
-                            counts[(L, BS)] = name
-                break
+            init_paths = [q for q in (paths(init.node, expand_self=False) if init is not None else []) if q.ret is not RAISE]
+            # the path on which the given batch sizes are used as they are (no `< 0` replacement by the data length)
+            init_paths.sort(key=lambda q: sum(1 for g, pol, k in q.guards if pol and "_batch_size" in dump(g) and "<0" in dump(g).replace(" ", "")))
+            init_texts = _attr_texts(init_paths[0].attrs) if init_paths else {}
+            for name, t in init_texts.items():
+                for fn in ("int(np.ceil(", "int(math.ceil(", "math.ceil(", "np.ceil("):
+                    if t.startswith(fn) and "/" in t:
+                        inner = t[len(fn):].rstrip(")")
+                        L, _, BS = inner.partition("/")
+                        counts[(L, BS)] = name
             # the counts the index is decoded with follow the current batch sizes: __len__ (called by the loader at the start of a pass) recomputes them
             for p in paths(ln.node, expand_self=False):
                 if p.ret is RAISE:
                     continue
-                stale = [name for name in counts.values() if name not in p.attrs or dump(p.attrs[name]).replace(" ", "") != dump(next(iter([v for q in paths(init.node, expand_self=False) for k2, v in q.attrs.items() if k2 == name]), None)).replace(" ", "")]
+                len_texts = _attr_texts(p.attrs)
+                stale = [name for name in counts.values() if name not in len_texts or len_texts[name] != init_texts.get(name)]
                 rep.check(R3, not stale, ln.site(), ln.fq, "window counts are recomputed from the current batch sizes in __len__ (same formulas as the constructor)",
                           f"not recomputed: {stale}", f"stale counts {stale}")
                 break
@@ -629,7 +648,11 @@ def data_loss_rules(repo: Repo, rep, R_full: str, R_single: str):
         loop = loops[0]
         it = dump(loop.iter)
         rep.check(R_full, it in ("iter(self.dataloader)", "self.dataloader"), fi.site(loop), fi.fq, "the loop ranges over the whole loader", it, it)
-        jumps = [type(s).__name__ for s in ast.walk(loop) if isinstance(s, (ast.Break, ast.Continue, ast.Return))]
+        # `if c: <update>; continue` followed by the other update is the if/else form of the same aggregation: such a trailing `continue` of a
+        # branch standing directly in the loop body is no jump out of the aggregation
+        benign = {id(b.body[-1]) for b in loop.body if isinstance(b, ast.If) and b.body and isinstance(b.body[-1], ast.Continue)} | \
+                 {id(b.orelse[-1]) for b in loop.body if isinstance(b, ast.If) and b.orelse and isinstance(b.orelse[-1], ast.Continue)}
+        jumps = [type(s).__name__ for s in ast.walk(loop) if isinstance(s, (ast.Break, ast.Continue, ast.Return)) and id(s) not in benign]
         rep.check(R_full, not jumps, fi.site(loop), fi.fq, "no break/continue/return inside the aggregation loop", str(jumps), str(jumps))
         for p in paths(fi.node):
             if p.ret is RAISE or p.ret is None:
@@ -875,8 +898,56 @@ def r5_loader_hands_sizes_on(repo: Repo, rep):
     rep.check(R, ok, init.site(), init.fq, "batch sizes are forwarded as given", f"re-bound: {rebound}; forwarded: {sorted(set(passed))[:4]}", f"batch sizes re-bound {rebound}")
 
 
+def r6_loader_is_transparent(repo: Repo, rep):
+    R = rep.rule("R-C16-6", "the loaders are transparent: the user's tensors reach the data set as given (not re-bound, transposed or collapsed), the choice of the data set depends on "
+                 "shapes only (no allclose / equal / any / all on the data), and no loader keeps batches of an earlier pass (__iter__ is the DataLoader's)", floor=3,
+                 why="a layout guessed from values or sizes pairs outputs with other locations for nearly equal / square data; cached batches ignore a later change of the batch sizes")
+    VALUE_PRED = ("allclose", "equal", "isclose", "any", "all", "item", "sum", "max", "min", "mean", "unique", "norm")
+    for mname in (DL, DDL):
+        m = repo.module(mname)
+        for ci in m.classes.values():
+            is_loader = any(ends(b, "DataLoader") for b in ci.ext_bases + [getattr(x, "name", "") for x in getattr(ci, "bases", [])])
+            init = ci.methods.get("__init__")
+            if init is None:
+                continue
+            rep.saw(init)
+            data = [p for p in init.params[1:] if p.endswith(("_data", "data_points", "_points")) or p in ("data_points",)]
+            if is_loader:
+                rebound = sorted({t.id for n in ast.walk(init.node) if isinstance(n, (ast.Assign, ast.AugAssign)) for t in (n.targets if isinstance(n, ast.Assign) else [n.target])
+                                  if isinstance(t, ast.Name) and t.id in data})
+                rep.check(R, not rebound, init.site(), init.fq, "the data arguments are handed on as given", f"re-bound before the data set is built: {rebound}", f"{ci.name}: data re-bound {rebound}")
+                own_iter = [n for n in ("__iter__", "__next__") if n in ci.methods]
+                rep.check(R, not own_iter, ci.module.relpath, ci.fq, "iteration is the DataLoader's (every pass asks the data set anew)", f"defines {own_iter}", f"{ci.name} defines {own_iter}")
+            # guards of the constructor look at shapes / flags only
+            bad = []
+            for n in ast.walk(init.node):
+                tests = [n.test] if isinstance(n, (ast.If, ast.IfExp, ast.While)) else []
+                for t in tests:
+                    for c in ast.walk(t):
+                        if isinstance(c, ast.Call) and (attr_chain(c.func) or dump(c.func)).split(".")[-1] in VALUE_PRED and any(isinstance(x, ast.Name) and x.id in data for x in ast.walk(c)) \
+                                and not all(isinstance(pn, ast.Attribute) and pn.attr in ("shape", "ndim") or True for pn in []):
+                            # value predicates on shape tuples (e.g. all(s > 0 for s in x.shape)) are not data-dependent
+                            only_shapes = all(not (isinstance(x, ast.Name) and x.id in data) or _under_shape(c, x) for x in ast.walk(c))
+                            if not only_shapes:
+                                bad.append(dump(c)[:60])
+            rep.check(R, not bad, init.site(), init.fq, "branches of the constructor depend on shapes and flags only", f"value-dependent test {bad[:1]}", f"{ci.name}: value test {bad[:1]}")
+
+
+def _under_shape(root: ast.AST, name_node: ast.AST) -> bool:
+    """the occurrence of a data name is only read through .shape / .ndim / len() / .dim()"""
+    for n in ast.walk(root):
+        if isinstance(n, ast.Attribute) and n.value is name_node and n.attr in ("shape", "ndim", "dtype", "device"):
+            return True
+        if isinstance(n, ast.Call) and dump(n.func) == "len" and n.args and n.args[0] is name_node:
+            return True
+        if isinstance(n, ast.Call) and isinstance(n.func, ast.Attribute) and n.func.value is name_node and n.func.attr in ("dim", "size", "ndimension"):
+            return True
+    return False
+
+
 def run(repo: Repo, rep):
     r5_loader_hands_sizes_on(repo, rep)
+    r6_loader_is_transparent(repo, rep)
     r3c_unique_coverage(repo, rep)
     r3b_shared_len(repo, rep)
     r1_points_dataset(repo, rep)
